@@ -2814,6 +2814,7 @@ coap_handle_request_put_block(coap_context_t *context,
   int update_data;
   unsigned int saved_num;
   size_t saved_offset;
+  size_t total_blocks;
 
   *added_block = 0;
   *pfree_lg_srcv = NULL;
@@ -3088,17 +3089,18 @@ coap_handle_request_put_block(coap_context_t *context,
     }
   }
 
+  /* Number of blocks the body has as far as known - no wrap with any Size1 */
+  total_blocks = lg_srcv->total_len / chunk +
+                 (lg_srcv->total_len % chunk ? 1 : 0);
   if (block.m ||
-      !check_all_blocks_in(&lg_srcv->rec_blocks,
-                           (uint32_t)(lg_srcv->total_len + chunk -1)/chunk)) {
+      !check_all_blocks_in(&lg_srcv->rec_blocks, total_blocks)) {
     /* Not all the payloads of the body have arrived */
     if (block.m) {
       uint8_t buf[4];
 
 #if COAP_Q_BLOCK_SUPPORT
       if (block_option == COAP_OPTION_Q_BLOCK1) {
-        if (check_all_blocks_in(&lg_srcv->rec_blocks,
-                                (uint32_t)(lg_srcv->total_len + chunk -1)/chunk)) {
+        if (check_all_blocks_in(&lg_srcv->rec_blocks, total_blocks)) {
           goto give_app_data;
         }
         if (lg_srcv->rec_blocks.used == 1 &&
@@ -3131,8 +3133,7 @@ coap_handle_request_put_block(coap_context_t *context,
        * block.
        */
       if (!lg_srcv->no_more_seen ||
-          !check_all_blocks_in(&lg_srcv->rec_blocks,
-                               (uint32_t)(lg_srcv->total_len + chunk -1)/chunk)) {
+          !check_all_blocks_in(&lg_srcv->rec_blocks, total_blocks)) {
         /* Ask for the next block */
         coap_insert_option(response, block_option,
                            coap_encode_var_safe(buf, sizeof(buf),
